@@ -828,6 +828,32 @@ class SymExec(object):
                     new_kwd = ('dict', (((None, fixed_kw),) if pt_[3] else ()) + (tuple(kwd_[1]) if kwd_ is not None else ()))
                     args = [pt_[2][0]]
                     kws = tuple((k_, v_) for k_, v_ in kws if k_ not in ('args', 'kwds')) + (('args', new_pos), ('kwds', new_kwd))
+            elif f[0] == 'attr' and f[2] == 'apply_async' and args and args[0][0] == 'name' and self.inline and 1 <= len(args) <= 3:
+                # ... or a module-level worker whose body is one call (`def _work(i, chunk, args, kwargs): ..; return
+                # g(a, b, *args, **kwargs, k=i)`): the pool runs that call
+                kd_ = dict(kws)
+                pos_ = args[1] if len(args) > 1 else kd_.get('args')
+                kwd_ = args[2] if len(args) > 2 else kd_.get('kwds')
+                fd_ = self.resolve(args[0], st)
+                if fd_ is not None and (pos_ is None or pos_[0] in ('tuple', 'list')) and (kwd_ is None or (kwd_[0] == 'dict' and all(
+                        k_ is not None and k_[0] == 'const' and isinstance(k_[1], str) for k_, _ in kwd_[1]))) \
+                        and not any(a_[0] == 'star' for a_ in (pos_[1] if pos_ is not None else ())):
+                    n_ev_ = len(st.events)
+                    r_ = self.inline_expr(fd_, args[0], tuple(pos_[1]) if pos_ is not None else (), tuple((k_[1], v_) for k_, v_ in kwd_[1]) if kwd_ is not None else (), st)
+                    if r_ is not None and r_[0] == 'call' and not any(a_[0] == 'star' for a_ in r_[2]):
+                        del st.events[n_ev_:]        # the worker's call happens in the pool, not here
+                        rk_ = list(r_[3])
+                        for d_ in (pos_[1] if pos_ is not None else ()):
+                            # an option dictionary handed to the worker and passed on with ** stays one dictionary
+                            if d_[0] == 'dict' and d_[1] and all(k_ is not None and k_[0] == 'const' and isinstance(k_[1], str) for k_, _ in d_[1]):
+                                run_ = [(k_[1], v_) for k_, v_ in d_[1]]
+                                for i_ in range(len(rk_) - len(run_) + 1):
+                                    if rk_[i_:i_ + len(run_)] == run_:
+                                        rk_[i_:i_ + len(run_)] = [(None, d_)]
+                                        break
+                        new_kwd = ('dict', tuple(((None, v_) if k_ is None else (('const', k_), v_)) for k_, v_ in rk_))
+                        args = [r_[1]]
+                        kws = tuple((k_, v_) for k_, v_ in kws if k_ not in ('args', 'kwds')) + (('args', ('tuple', tuple(r_[2]))), ('kwds', new_kwd))
             if f == ('name', 'int') and len(args) == 1 and not kws and args[0][0] == 'unop' and args[0][1] == 'not':
                 return ('ifexp', args[0][2], ('const', 0), ('const', 1))      # int(not b) is 0 if b else 1
             if f == ('name', 'len') and len(args) == 1 and not kws and args[0][0] == 'const' and isinstance(args[0][1], str):
